@@ -141,7 +141,7 @@ class DiagonalStack(DiagonalStackOperator, LinearOperator):
         )
 
     def _adj(self, y: Union[Array, BlockArray]) -> Union[Array, BlockArray]:  # type: ignore
-        result = tuple(op.T @ y_n for op, y_n in zip(self.ops, y))  # type: ignore
+        result = tuple(op.adj(y_n) for op, y_n in zip(self.ops, y))  # type: ignore
         if self.collapse_input:
             return snp.stack(result)
         return snp.blockarray(result)
